@@ -116,6 +116,8 @@ func generalPlan(tier string, faults bool) []PlanItem {
 			PlanItem{scnTerms("terms-health2-K1", K1, []string{"ok", "bad", "bad", "ok"}, 2, "A", "B"), d},
 			PlanItem{scnPreempt("preempt-lowfirst-K1", K1, []InstSpec{{ID: "A", Priority: 1, Takeover: true}, {ID: "B", Priority: 2, Takeover: true}}, []string{"A", "B"}), d},
 			PlanItem{scnPreemptStop("preempt-then-stopdel-K1", K1), d},
+			PlanItem{scnFailoverTamper("failover-then-outside-delete-K1", K1, "delete"), d},
+			PlanItem{scnFailoverTamper("failover-then-outside-put-K1", K1, "put"), d},
 			PlanItem{scnPrio("preempt-chain-123-K1", []prioOpt{{1, false}, {2, true}, {3, true}}, []string{"A", "B", "C"}, false), d},
 			PlanItem{scnPrio("preempt-chain-132-K1", []prioOpt{{1, true}, {3, true}, {2, true}}, []string{"A", "B", "C"}, false), d},
 			PlanItem{scnPreempt("preempt-mixed-K1", K1, []InstSpec{{ID: "A", Priority: 2}, {ID: "B", Priority: 2, Takeover: true}, {ID: "C", Priority: 3, Takeover: true}}, []string{"A", "B", "C"}), d},
@@ -149,5 +151,19 @@ func init() {
 func scnPreemptStop(name string, k kfn) *Scenario {
 	s := scnPreempt(name, k, []InstSpec{{ID: "A", Priority: 1, Takeover: true}, {ID: "B", Priority: 2, Takeover: true}}, []string{"A", "B"})
 	s.Script = append(s.Script, Item{At: s.H/2 + 3*us, Actor: "stopA", Do: "stopctx", Inst: "A", DeleteKey: true})
+	return s
+}
+
+// failover-then-tamper: B follows A, takes over after A's graceful stop (so B leads with
+// its watcher still running), then an outside party deletes / rewrites B's record.
+func scnFailoverTamper(name string, k kfn, action string) *Scenario {
+	s := scnFailoverDel(name, k, "A", "B")
+	at := 2*s.H + 53*ms + 2*s.H + 17*ms + 5*us
+	if action == "delete" {
+		s.Script = append(s.Script, Item{At: at, Actor: "outside", Do: "delete"})
+	} else {
+		s.Script = append(s.Script, Item{At: at, Actor: "outside", Do: "put", Payload: `{"id":"X","token":"tok-x","priority":0}`})
+	}
+	s.Horizon = at + s.TTL + 900*ms
 	return s
 }
